@@ -23,11 +23,12 @@ MAX_INCONCLUSIVE = 0.10  # fraction of runs that may be dropped for timing reaso
 
 # (cfg file, workers, tiers) - must pass ("No error has been found")
 DESIGN_PASS = [
-    ("AcctDesign", "MC_contract.cfg", 8, ("quick", "thorough")),
-    ("Acct", "MC_code_holds_small.cfg", 8, ("quick", "thorough")),
-    ("Acct", "MC_code_holds_1s2c.cfg", 8, ("quick", "thorough")),
-    ("Acct", "MC_durable_live.cfg", 8, ("quick", "thorough")),
-    ("Acct", "MC_code_holds.cfg", 16, ("thorough",)),
+    ("AcctDesign", "MC_contract.cfg", 4, ("quick", "thorough")),
+    ("Acct", "MC_code_holds_small.cfg", 4, ("quick", "thorough")),
+    ("Acct", "MC_code_holds_1s2c.cfg", 4, ("quick", "thorough")),
+    ("Acct", "MC_durable_live.cfg", 4, ("quick", "thorough")),
+    ("Acct", "MC_code_holds.cfg", 8, ("thorough",)),
+    ("AcctDesign", "MC_contract_len5.cfg", 4, ("thorough",)),
     ("AcctDesign", "MC_contract_len6.cfg", 8, ("thorough",)),
     ("AcctDesign", "MC_contract2.cfg", 8, ("thorough",)),
     ("Acct", "MC_code_nodup_2s.cfg", 8, ("thorough",)),
@@ -177,7 +178,7 @@ def _design_cex(work):
 
     def one(job):
         i, clause, cfgfile = job
-        res = run_tlc(sd, "Acct", open(os.path.join(sd, cfgfile)).read(), work, workers=2, timeout=1500, name=cfgfile[:-4])
+        res = run_tlc(sd, "Acct", open(os.path.join(sd, cfgfile)).read(), work, workers=4, timeout=1500, name=cfgfile[:-4])
         o = res["out"]
         st = dict(module="Acct", cfg=cfgfile, states=res["distinct"], transitions=res["generated"], wall_s=round(res["wall"], 1))
         if clause == "Live":
@@ -283,28 +284,35 @@ def _check(prop, fam, tier, seed, replay, work, known, t0):
     design_stats, cex_cases, cex_info, live = [], [], [], None
     env = {"VERIF_PROP": prop}
     outdir = os.path.join(work, "explore")
-    pool = concurrent.futures.ThreadPoolExecutor(max_workers=1)
-    fut = None
+    if replay:
+        env["VERIF_REPLAY"] = os.path.abspath(replay)
+    else:
+        design_stats, cex_cases, cex_info, live = _design_cex(work)
+        if cex_cases:
+            xf = os.path.join(work, "cex_cases.json")
+            json.dump(dict(property=prop, cases=cex_cases), open(xf, "w"))
+            env["VERIF_EXTRA"] = xf
+    # the explorer is real-time (1 s retry ticker, sub-second client timeout): it runs alone, never next to our own TLC jobs
     try:
-        if replay:
-            env["VERIF_REPLAY"] = os.path.abspath(replay)
-        else:
-            fut = pool.submit(_design_pass, tier, work)   # TLC on the design runs while the (sleep-bound) explorer does
-            design_stats, cex_cases, cex_info, live = _design_cex(work)
-            if cex_cases:
-                xf = os.path.join(work, "cex_cases.json")
-                json.dump(dict(property=prop, cases=cex_cases), open(xf, "w"))
-                env["VERIF_EXTRA"] = xf
         stats = _explore(binp, outdir, tier, seed, env)
-    finally:
-        if fut is not None:
-            design_stats = design_stats + fut.result()
-        pool.shutdown()
+    except Infra as e:
+        if "inconclusive" not in str(e):
+            raise
+        log("explorer: %s - one more attempt" % str(e)[:200])
+        time.sleep(5)
+        stats = _explore(binp, outdir, tier, seed, env)
+    pool = concurrent.futures.ThreadPoolExecutor(max_workers=1)
+    fut = None if replay else pool.submit(_design_pass, tier, work)   # must-pass design runs, concurrently with TLC on the observed runs
     bpath = os.path.join(outdir, "bundle.json")
     bundle = Bundle(bpath)
     nsys = len(bundle.b["systems"])
-    res, viols = _run_impl(work, bpath, "impl", shards=(4 if nsys < 1000 else 8))
-    log("impl TLC: %d runs, %d states, %d violating events" % (nsys, res["distinct"], len(viols)))
+    try:
+        res, viols = _run_impl(work, bpath, "impl", shards=(4 if nsys < 1000 else 8))
+        log("impl TLC: %d runs, %d states, %d violating events" % (nsys, res["distinct"], len(viols)))
+        if fut is not None:
+            design_stats = design_stats + fut.result()
+    finally:
+        pool.shutdown(wait=True)
 
     # one signature per (run, clause); the earliest violating event of that clause in the run
     per, counts = {}, collections.Counter()
@@ -405,6 +413,11 @@ CHECKS = {
     "C08": dict(runner=runner, pkg="./acct", test="TestExplore", spec_dir=SPEC_DIR, impl_module="AcctImpl",
                 design=[(m, c, w) for (m, c, w, _) in DESIGN_PASS], watch=CLAUSES, assumptions=ASSUMPTIONS, explanation=EXPLANATION),
 }
+
+# for lib/manifest_data.ENGINES (merged by the lead)
+ENGINE = dict(name="tlc-acct", path="lib/fam_acct.py", serves_properties=["C08"],
+              kind_free_text="TLA+ design model of accounting.go and property contract model-checked by TLC (counterexample runs replayed on the code); runs of the real "
+                             "AccountingManager against a scripted UDP RADIUS peer with a crash injected at every crash-point hit are walked by a TLA+ monitor spec under TLC")
 
 MANIFEST = {
     "C08": dict(
